@@ -139,6 +139,21 @@ Proof.
   eexists. repeat split.
 Qed.
 
+(** The liveness half of the property in one statement: a caller that is registered and not
+    yet notified is released along ANY run in which (first) its worker takes [wdist] <= 4 steps
+    other than slot stores -- the lookup's completion being one of them: the premise that the
+    lookup terminates -- and (then) the caller itself takes three steps.  No assumption on what
+    anybody else does in between: arrivals, completions, idle exits, stop_managing_paths,
+    cancellations, callers giving up. *)
+Theorem waiting_caller_is_released :
+  forall n s tr1 s1 tr2 s2 i e,
+    reach n s -> wts s i = AReg e false ->
+    run true tr1 s = Some s1 -> wdist (wc (pss s e)) <= count_l (progress_of e) tr1 ->
+    run true tr2 s1 = Some s2 -> 3 <= count_l (is_caller i) tr2 ->
+    exists r, wts s2 i = ADone r.
+Proof. intros n s tr1 s1 tr2 s2 i e R. apply waiter_released_run. eapply Inv_reach; eauto. Qed.
+Print Assumptions waiting_caller_is_released.
+
 (** non-vacuity of the after-drop theorems: a reachable state in which the manager is gone while
     a worker sleeps and another has not run yet; four steps each later both have terminated *)
 Example ex_dropped :
